@@ -3,6 +3,8 @@ package mocrelay
 import (
 	"encoding/json"
 	"fmt"
+	"net/http/httptest"
+	"reflect"
 	"testing"
 )
 
@@ -38,6 +40,99 @@ func TestGovcBoundedNip11KindRoundTrip(t *testing.T) {
 			}
 			n++
 		}
+	}
+	fmt.Printf("GOVC-BOUNDED evaluations=%d\n", n)
+}
+
+// Bounded stand-in for C20 "the information document round-trips through JSON for every configuration / is equal
+// to the configuration": every field of the document (found by reflection, so that fields added later are covered)
+// is given a distinct non-zero value - all at once and one field at a time - and the document must come back equal
+// from json.Marshal/Unmarshal and from the body served by NIP11.ServeHTTP. Struct tags are data for encoding/json
+// (a duplicated or misspelt key silently drops a field); they cannot be put under a contract of this verifier.
+func govcFill(v reflect.Value, seed *int, only int, idx *int) {
+	switch v.Kind() {
+	case reflect.Ptr:
+		n := reflect.New(v.Type().Elem())
+		before := *idx
+		govcFill(n.Elem(), seed, only, idx)
+		if only < 0 || (before <= only && only < *idx) {
+			v.Set(n)
+		}
+	case reflect.Struct:
+		if v.Type() == reflect.TypeOf(Nip11Kind{}) {
+			take := only < 0 || *idx == only
+			*idx++
+			if take {
+				*seed += 2
+				v.Set(reflect.ValueOf(Nip11Kind{From: *seed, To: *seed + 1}))
+			}
+			return
+		}
+		for i := 0; i < v.NumField(); i++ {
+			govcFill(v.Field(i), seed, only, idx)
+		}
+	case reflect.Slice:
+		take := only < 0 || *idx == only
+		s := reflect.MakeSlice(v.Type(), 2, 2)
+		for i := 0; i < 2; i++ {
+			sub := -1
+			ii := 0
+			govcFill(s.Index(i), seed, sub, &ii)
+		}
+		*idx++
+		if take {
+			v.Set(s)
+		}
+	default:
+		take := only < 0 || *idx == only
+		*idx++
+		if !take {
+			return
+		}
+		*seed++
+		switch v.Kind() {
+		case reflect.String:
+			v.SetString(fmt.Sprintf("v%d", *seed))
+		case reflect.Bool:
+			v.SetBool(true)
+		case reflect.Int, reflect.Int64, reflect.Int32:
+			v.SetInt(int64(*seed))
+		case reflect.Uint, reflect.Uint64, reflect.Uint32:
+			v.SetUint(uint64(*seed))
+		case reflect.Float64:
+			v.SetFloat(float64(*seed))
+		}
+	}
+}
+
+func TestGovcBoundedNip11DocRoundTrip(t *testing.T) {
+	count := 0
+	{
+		var probe NIP11
+		seed := 0
+		govcFill(reflect.ValueOf(&probe).Elem(), &seed, -1, &count)
+	}
+	n := 0
+	for only := -1; only < count; only++ {
+		var doc NIP11
+		seed, idx := 0, 0
+		govcFill(reflect.ValueOf(&doc).Elem(), &seed, only, &idx)
+		raw, err := json.Marshal(&doc)
+		var back NIP11
+		if err != nil || json.Unmarshal(raw, &back) != nil || !reflect.DeepEqual(doc, back) {
+			fmt.Printf("GOVC-BOUNDED-FAIL NIP11 document does not round-trip (field set %d of %d): json=%s\n", only, count, raw)
+			t.FailNow()
+		}
+		rec := httptest.NewRecorder()
+		req := httptest.NewRequest("GET", "/", nil)
+		req.Header.Set("Accept", "application/nostr+json")
+		doc.ServeHTTP(rec, req)
+		var served NIP11
+		if rec.Code != 200 || json.Unmarshal(rec.Body.Bytes(), &served) != nil || !reflect.DeepEqual(doc, served) {
+			fmt.Printf("GOVC-BOUNDED-FAIL served NIP11 document differs from the configuration (field set %d of %d): status=%d body=%s\n", only, count, rec.Code, rec.Body.String())
+			t.FailNow()
+		}
+		n++
 	}
 	fmt.Printf("GOVC-BOUNDED evaluations=%d\n", n)
 }
